@@ -124,6 +124,79 @@ def _case(args):
     return {'grammar': g, 'recs': recs}
 
 
+# realistic shapes (unambiguous, conflict-free LALR, inside the supported class): nested ?rules with several children, repetition helpers next to them,
+# rule names that are prefixes of one another, several statement kinds in one input — one Reconstructor serves several trees
+CORPUS = [
+    'start: stmt+\nstmt: NAME "=" sum ";" | call ";"\ncall: NAME "(" sum ("," sum)* ")"\n?sum: product | sum "+" product\n?product: atom | product "*" atom\n?atom: NUM | NAME | "(" sum ")"\n' + EXTRA_TERMS + '%ignore " "\n',
+    'start: stmt+\nstmt: "export" names ";" | "use" name ";"\nnames: name ("," name)*\nname: NAME ("." NAME)*\n' + EXTRA_TERMS + '%ignore " "\n',
+    'start: item+\nitem: "f" arglist ";" | "g" arg ";"\narglist: "(" arg ("," arg)* ")"\narg: NAME | NUM\n' + EXTRA_TERMS + '%ignore " "\n',
+    'start: (decl | expr_stmt)+\ndecl: "let" NAME "=" expr ";"\nexpr_stmt: expr ";"\n?expr: term | expr "-" term\n?term: NUM | NAME | list\nlist: "[" [expr ("," expr)*] "]"\n' + EXTRA_TERMS + '%ignore " "\n',
+    'start: pair+\npair: key ":" value ";"\nkey: NAME\n?value: NUM | NAME | obj\nobj: "{" pair* "}"\n' + EXTRA_TERMS + '%ignore " "\n',
+]
+
+
+def _corpus_case(args):
+    gi, seed = args
+    from lark import Lark
+    from lark.exceptions import UnexpectedInput
+    from lark.reconstruct import Reconstructor
+    rng = random.Random(seed)
+    g = CORPUS[gi]
+    p = Lark(g, parser='lalr', maybe_placeholders=False)
+    by = {}
+    for r in p.rules: by.setdefault(r.origin.name, []).append(r)
+    def sample_long():
+        out = []
+        from lark.grammar import NonTerminal
+        def expand(sym, depth):
+            if sym.is_term:
+                t = [t for t in p.terminals if t.name == sym.name][0]
+                out.append(t.pattern.value if t.pattern.type == 'str' else rng.choice(['7', '42'] if '0-9' in t.pattern.value else ['q', 'foo', 'b']))
+                return
+            rs = by[sym.name]
+            r = rng.choice(rs) if depth < 5 and len(out) < 40 else min(rs, key=lambda r: len(r.expansion))
+            for s_ in r.expansion: expand(s_, depth + 1)
+        expand(NonTerminal('start'), 0)
+        return ' '.join(out)
+    texts = []
+    for _ in range(4):
+        try:
+            texts.append(sample_long())
+        except RecursionError:
+            pass
+    shared = Reconstructor(p)
+    fails = []
+    order = list(range(len(texts))); rng.shuffle(order)
+    with guarded(30):
+        for i in order:
+            s = texts[i]
+            try:
+                t = p.parse(s)
+            except UnexpectedInput:
+                continue
+            outs = {}
+            for name, rc in (('shared', shared), ('fresh', Reconstructor(p))):
+                try:
+                    o = rc.reconstruct(t)
+                    try:
+                        outs[name] = [o, p.parse(o) == t]
+                    except UnexpectedInput as e:
+                        outs[name] = [o, False]
+                except Exception as e:
+                    if not exc_in_lark_local(e):
+                        raise
+                    outs[name] = ['raised ' + repr(e)[:120], False]
+            if not outs['fresh'][1] or not outs['shared'][1] or outs['fresh'][0] != outs['shared'][0]:
+                fails.append({'text': s, 'reconstructed_by_a_fresh_Reconstructor': outs['fresh'], 'reconstructed_by_the_one_used_for_the_earlier_trees': outs['shared'], 'earlier_texts': [texts[j] for j in order[:order.index(i)]]})
+                break
+    return {'grammar': g, 'texts': texts, 'fails': fails}
+
+
+def exc_in_lark_local(e):
+    import traceback
+    return any('/lark/' in fr.filename for fr in traceback.extract_tb(e.__traceback__))
+
+
 def run(ctx, res):
     rng = random.Random(ctx['seed'] * 1000003 + 19)
     for f in ctx['known']:
@@ -190,3 +263,18 @@ def run(ctx, res):
             res.violation('reconstruct(tree) does not re-parse to an equal tree', dict(where, reparse_error=r.get('reparse_error'), tree=r.get('tree'), reparsed=r.get('tree2'))); continue
         if m != r['out']:
             res.corr_break('text assembly differs from the Lean joinItems', dict(where, model=m, items=r['items']))
+    # ---- corpus of realistic shapes, several trees through one Reconstructor
+    cj = [(i % len(CORPUS), rng.randrange(1 << 30)) for i in range(tier_scale(ctx['tier'], 150, 3000) * (3 if ctx['deepen'] else 1))]
+    for job, (st, rec) in zip(cj, pmap(_corpus_case, cj, chunksize=4)):
+        if st != 'ok':
+            if st == 'exc':
+                if not exc_in_lark(rec):
+                    raise InfraError(rec)
+                res.violation('the Reconstructor raised on a tree of the supported class', {'grammar': CORPUS[job[0]], 'seed': job[1], 'detail': rec})
+            else:
+                res.inconclusive[st] = res.inconclusive.get(st, 0) + 1
+            continue
+        res.case(['c19corpus', job[0], rec['texts']], nontrivial=len(rec['texts']) > 1, sample={'grammar': rec['grammar'], 'texts': rec['texts']} if len(res.samples) < 5 else None)
+        res.count('corpus_histories'); res.count('corpus_trees', len(rec['texts']))
+        for f in rec['fails']:
+            res.violation('reconstruct(tree) does not re-parse to an equal tree, or depends on the trees reconstructed before', dict(f, grammar=rec['grammar']))
